@@ -531,7 +531,12 @@ func (c *compiler) compile(tok *token) []instruction {
 		res = append(res, c.compile(tok.Tokens[sliceObj])...)
 		res = append(res, c.compile(tok.Tokens[sliceBegin])...)
 		res = append(res, c.compile(tok.Tokens[sliceEnd])...)
-		res = append(res, instruction{Code: codeSlice})
+		// A: the high bound was left out (the parser writes it as -1); a bound that is negative at run time is out of range
+		omitted := 0
+		if end := tok.Tokens[sliceEnd]; end.Symbol == "(int)" && end.Text == "-1" {
+			omitted = 1
+		}
+		res = append(res, instruction{Code: codeSlice, A: reg(omitted)})
 	case "func":
 		const funcArguments, funcReturns, funcBlock = 0, 1, 2
 		tmp := c.Locals
